@@ -44,6 +44,11 @@ CLAIMED = {
 		text='Proved per token class against Python\'s lexical rules on the supported ASCII subset: names and decimal numbers are maximal runs; a single-quoted (plain/r/f, either quote) literal ends at the first quote preceded by an even number of backslashes; every token\'s text is the source slice and its span the standard (line, column) of both ends; bracket depth and block bookkeeping emit exactly (new depth - old depth) block markers, none inside brackets, under the consistent-layout precondition. The operator table is a closed check against CPython\'s table. Whole-sequence equality with CPython\'s tokenize, triple-quoted literals, comments/post-filter and the layout metamorphism are a bounded twin (never counted as proved).',
 		note='Python lexical rules as specified in specs/lexspec.py; handler-table dispatch (_rebuild, parse_impl) and regex post-filter outside the VC subset',
 		ref='DESIGN.md §4 C13'),
+	'C14': dict(
+		level='proof',
+		text='Proved for all tables whose type-reference graph is acyclic: SymbolDB._order_keys_recursive / _order_keys list the keys of a module so that every key stands after every key its row refers to (its type and its type arguments at any depth, within the module) and every key of the module is listed - the export side of "import never refers to a key not yet present"; __getitem__/__setitem__/completed/on_complete/import_json are proved against the table view with frames (imported keys present, their module completed, existing symbols and marks retained). Reflections are opaque identities with axiomatised reachability. The rebuild of nested attributes on import and the symbol-by-symbol comparison are a labelled bounded twin over real and generated modules.',
+		note='reachability through attrs axiomatised by its unfolding plus a height function; dict iteration as an abstract list; deserialize assumed; acyclic key graph / type-entry invariants are preconditions validated natively by the twin',
+		ref='DESIGN.md §4 C14, §9'),
 	'C15': dict(
 		level='exploration',
 		text='Bounded stand-in only: the contract V(EntryOfLark(loads(json(dumps(T))))) == V(EntryOfLark(T)) is evaluated at run time on every lark tree up to 4 (5) nodes over an alphabet that contains the corner cases (multi-line tokens, unset/zero positions, empty meta, None placeholders, childless trees) and on real parse trees. Nothing is counted as proved: the two recursive functions work on third-party lark objects and heterogeneous dicts that the VC subset cannot carry without replacing most statements by assumed readings.',
